@@ -195,3 +195,12 @@ impl From<bool> for IBig {
     fn from(b: bool) -> IBig { unimplemented!() }
 }
 } // mod stub_shr
+
+// (not used by the unchanged code: present so that a changed function using them is judged by its contract instead
+//  of being rejected as unsupported) bits.rs `bit_len`: 0 for 0, else the k with 2^(k-1) <= v < 2^k
+impl<'a> TypedReprRef<'a> {
+    #[verifier::external_body]
+    pub fn bit_len(self) -> (r: usize)
+        ensures self.v() == 0 ==> r == 0, self.v() > 0 ==> r >= 1 && pow2(r as int - 1) <= self.v() < pow2(r as int)
+    { unimplemented!() }
+}
